@@ -609,6 +609,60 @@ SYNTH_STATIC = {
         return;
     }
 }''',
+    '__iter_rposition': '''fn __iter_rposition(_1: &mut I, _2: F) -> Option {
+    bb0: {
+        _9 = __iter_len(copy _1) -> [return: bb6, unwind continue];
+    }
+    bb6: {
+        _3 = __iter_next_back(copy _1) -> [return: bb1, unwind continue];
+    }
+    bb1: {
+        _4 = discriminant(_3);
+        switchInt(move _4) -> [0: bb5, otherwise: bb2];
+    }
+    bb2: {
+        _5 = move ((_3 as Some).0: T);
+        _9 = Sub(copy _9, const 1_usize);
+        _7 = &mut _2;
+        _6 = __call_value(copy _7, move _5) -> [return: bb3, unwind continue];
+    }
+    bb3: {
+        switchInt(move _6) -> [0: bb6, otherwise: bb4];
+    }
+    bb4: {
+        _0 = Option::<usize>::Some(copy _9);
+        return;
+    }
+    bb5: {
+        _0 = Option::<usize>::None;
+        return;
+    }
+}''',
+    '__iter_rfind': '''fn __iter_rfind(_1: &mut I, _2: F) -> Option {
+    bb0: {
+        _3 = __iter_next_back(copy _1) -> [return: bb1, unwind continue];
+    }
+    bb1: {
+        _4 = discriminant(_3);
+        switchInt(move _4) -> [0: bb5, otherwise: bb2];
+    }
+    bb2: {
+        _8 = &((_3 as Some).0: T);
+        _7 = &mut _2;
+        _6 = __call_value(copy _7, move _8) -> [return: bb3, unwind continue];
+    }
+    bb3: {
+        switchInt(move _6) -> [0: bb0, otherwise: bb4];
+    }
+    bb4: {
+        _0 = move _3;
+        return;
+    }
+    bb5: {
+        _0 = Option::<T>::None;
+        return;
+    }
+}''',
     '__iter_position': '''fn __iter_position(_1: &mut I, _2: F) -> Option {
     bb0: {
         _9 = const 0_usize;
@@ -1468,6 +1522,25 @@ def model(ex, st, c, args):
     if c == 'Vec::clear':
         D(args[0]).items[:] = []
         return mkunit()
+    if c == 'Vec::split_off':
+        v = D(args[0])
+        at = ex.concrete_int(args[1])
+        if at > len(v.items):
+            raise Panic('split_off: `at` out of bounds')
+        tail = VecV(v.items[at:])
+        del v.items[at:]
+        return tail
+    if c == 'Vec::append':
+        v, o_ = D(args[0]), D(args[1])
+        v.items.extend(o_.items)
+        o_.items[:] = []
+        return mkunit()
+    if c in ('Vec::last_mut', 'Vec::first_mut', 'Vec::first', 'Vec::last'):
+        end = ex.ref_chain_end(args[0])
+        v = D(args[0])
+        if not v.items:
+            return none()
+        return some(Ref(end.cell, list(end.path) + [('index', 0 if 'first' in c else len(v.items) - 1)], mut=c.endswith('_mut')))
     if c == 'Vec::truncate':
         v = D(args[0])
         n = ex.concrete_int(args[1])
@@ -2039,6 +2112,19 @@ def model(ex, st, c, args):
         return AdaptV('filter', args[0], args[1])
     if c.endswith(' as Iterator>::any'):
         return ('BODY', synth_static(ex, '__iter_any'), args)
+    if c.endswith(' as Iterator>::rposition'):
+        return ('BODY', synth_static(ex, '__iter_rposition'), args)
+    if c.endswith(' as DoubleEndedIterator>::rfind') or c.endswith(' as Iterator>::rfind'):
+        return ('BODY', synth_static(ex, '__iter_rfind'), args)
+    if c == '__iter_len' or c.endswith(' as ExactSizeIterator>::len'):
+        it = D(args[0])
+        if isinstance(it, PeekV):
+            it = it.it
+        if isinstance(it, (IterV, CharsV)):
+            return usize(it.end - it.pos)
+        if isinstance(it, OwnIter):
+            return usize(len(it.items) - it.pos)
+        raise Unsupported('len of %r' % (it,))
     if c.endswith(' as Iterator>::find'):
         return ('BODY', synth_static(ex, '__iter_find'), args)
     if c.endswith(' as Iterator>::position'):
@@ -2080,7 +2166,7 @@ def model(ex, st, c, args):
     if c == '__vec_to_string':
         v = args[0]
         return SStr(v.items)
-    if c.endswith(' as Iterator>::next_back') or c.endswith(' as DoubleEndedIterator>::next_back'):
+    if c.endswith(' as Iterator>::next_back') or c.endswith(' as DoubleEndedIterator>::next_back') or c == '__iter_next_back':
         it = D(args[0])
         if isinstance(it, IterV):
             if it.pos >= it.end:
@@ -2092,6 +2178,10 @@ def model(ex, st, c, args):
                 return none()
             it.end -= 1
             return some(D(it.ref).items[it.end])
+        if isinstance(it, OwnIter):
+            if it.pos >= len(it.items):
+                return none()
+            return some(it.items.pop())
         raise Unsupported('next_back on %r' % (it,))
     if c == 'core::str::<impl str>::strip_prefix':
         s = to_sstr(ex, args[0])
